@@ -29,6 +29,15 @@ func Load(p *refchess.Pos) *board.Board {
 type Loader struct {
 	B   board.Board
 	buf []byte
+	ms  *move.Store
+}
+
+// Store is a move store owned by the loader (one per worker).
+func (l *Loader) Store() *move.Store {
+	if l.ms == nil {
+		l.ms = move.NewStore()
+	}
+	return l.ms
 }
 
 // Load parses p's FEN into the loader's board and returns it. The board is
